@@ -386,6 +386,7 @@ def _ulps(a: float, b: float) -> float:
 
 
 ULP = 4
+ANGLE_ULP = 1 << 27  # acos(dot) of nearly (anti)parallel unit vectors amplifies 1 ulp of the dot product to ~1.5e-8 rad
 
 
 class Canon:
@@ -641,7 +642,7 @@ class DiffGen:
             return ("M", tuple(float(x) for x in self.g.singular()))
         if c < 0.9:
             return ("M", tuple(float(x) for x in self.g.wellcond()))
-        return ("M", tuple(self.scalar() for _ in range(16)))
+        return ("M", tuple(r.choice([0.0, -0.0, 1.0, -1.0, 0.5, 3.0, 1e-13, 1e-9, 1e9, -1e16, 7]) for _ in range(16)))
 
     def angle(self):
         return self.r.choice([0.0, math.pi / 2, math.pi, -math.pi, 2 * math.pi, 1e-9, 100.0, -0.0, self.r.uniform(-7, 7), 45, 720.0])
@@ -746,9 +747,10 @@ def diff_vectors(d: Diff, n: int):
                              ("dot", lambda im, x, y: x.dot(y)), ("distance", lambda im, x, y: x.distance(y)),
                              ("lerp", lambda im, x, y: x.lerp(y)), ("isclose", lambda im, x, y: x.isclose(y)),
                              ("project", lambda im, x, y: list(x.project(y)) + [max(abs(float(t)) for t in y)]),  # last entry = scale of the operand
-                             ("angle_between", lambda im, x, y: x.angle_between(y))):
-                d.call(f"{cls}.{name}", [a, b], fn)
-                d.call(f"{cls}.{name}/input-forms", [a, o], fn, cover=f"{cls}.{name}")
+                             ("angle_between", lambda im, x, y: [x.angle_between(y), math.pi])):  # absolute tolerance on the scale of pi, see ANGLE_ULP
+                u = ANGLE_ULP if name == "angle_between" else ULP
+                d.call(f"{cls}.{name}", [a, b], fn, ulp=u)
+                d.call(f"{cls}.{name}/input-forms", [a, o], fn, ulp=u, cover=f"{cls}.{name}")
             d.call(f"{cls}.lerp/factor", [a, b, R(k)], lambda im, x, y, t: x.lerp(y, t), cover=f"{cls}.lerp")
             d.call(f"{cls}.isclose/tol", [a, b, R(r.choice([1e-9, 1e-6, 0.0, 0.5])), R(r.choice([1e-12, 0.0, 1e-3]))],
                    lambda im, x, y, rt, at: x.isclose(y, rel_tol=rt, abs_tol=at), cover=f"{cls}.isclose")
@@ -867,7 +869,7 @@ def diff_matrix(d: Diff, n: int):
                          ("__reduce__", lambda im, x: __import__("pickle").loads(__import__("pickle").dumps(x)))):
             d.call(f"Matrix44.{name}", [m], fn)
         # determinant: explicit polynomial (Cython) vs LU (NumPy): compared relative to the Hadamard bound of the matrix
-        d.call("Matrix44.determinant", [m], lambda im, x: [float(x.determinant()), _hadamard_f(list(x))], ulp=1 << 14)
+        d.call("Matrix44.determinant", [m], lambda im, x: [float(x.determinant()), _hadamard_f(list(x))], ulp=1 << 24)
         i, j = r.choice([0, 1, 2, 3, 4, -1, -5]), r.choice([0, 1, 2, 3, 4, -1])
         d.call("Matrix44.__getitem__", [m, R((i, j))], lambda im, x, idx: x[idx])
         d.call("Matrix44.__setitem__", [m, R((i, j)), R(g.scalar())], lambda im, x, idx, val: (x.__setitem__(idx, val), x)[1])
@@ -955,7 +957,8 @@ def diff_bezier(d: Diff, n: int):
         a0, a1 = g.angle(), g.angle()
         seg = r.choice([1, 1, 2, 4, 0])
         d.call("bezier4p.cubic_bezier_arc_parameters", [R(a0), R(a1), R(seg)], lambda im, s, e, k: list(im.bez4.cubic_bezier_arc_parameters(s, e, k)), ulp=64)
-        d.call("bezier4p.cubic_bezier_from_arc", [g.vec_input(3, False), R(abs(g.scalar()) if r.random() < 0.8 else g.scalar()), R(math.degrees(a0)), R(math.degrees(a1)), R(seg)],
+        cen = r.choice([("V3", tuple(float(g.g.dy(r.choice([-3, 0, 6]))) for _ in range(3))), RX((1.0, 2.0)), RX((1.0, 2.0, 3.0)), ("V2!", (3.0, -4.0))])
+        d.call("bezier4p.cubic_bezier_from_arc", [cen, R(r.choice([1.0, 2.5, 1e-3, 1e6, 0.0, -1.0, 7])), R(math.degrees(a0)), R(math.degrees(a1)), R(seg)],
                lambda im, c, rad, s, e, k: list(im.bez4.cubic_bezier_from_arc(c, rad, s, e, k)), ulp=256)
         d.call("bezier4p.cubic_bezier_from_arc/default", [], lambda im: list(im.bez4.cubic_bezier_from_arc()), ulp=64, cover="bezier4p.cubic_bezier_from_arc")
         from ezdxf.math import ConstructionEllipse
@@ -1003,7 +1006,10 @@ def diff_construct(d: Diff, n: int):
         if m >= 3 and r.random() < 0.2:
             poly[2] = poly[1]
         ints = [("V2", (float(r.randint(-4, 4)), float(r.randint(-4, 4)))) for _ in range(r.randint(3, 7))]
-        for pl in (poly, ints):
+        dx, dy = float(r.randint(-3, 3)), float(r.randint(-3, 3))
+        flat = r.choice([[("V2", (i * dx, i * dy)) for i in range(r.randint(3, 5))], [("V2", (1.0, 2.0))] * 4,
+                         [("V2", (0.0, 0.0)), ("V2", (dx, dy)), ("V2", (2 * dx, 2 * dy)), ("V2", (dx, dy))]])  # zero signed area
+        for pl in (poly, ints, flat):
             d.call("construct.has_clockwise_orientation", [("seq", pl)], lambda im, vs: im.construct.has_clockwise_orientation(vs))
             pt = pl[0] if pl and r.random() < 0.2 else r.choice([g.v2(), ("V2", (float(r.randint(-4, 4)), float(r.randint(-4, 4)))), ("V2", (r.randint(-8, 8) / 2.0, r.randint(-8, 8) / 2.0))])
             d.call("construct.is_point_in_polygon_2d", [pt, ("seq", pl)], lambda im, p, vs: im.construct.is_point_in_polygon_2d(p, vs))
@@ -1176,6 +1182,10 @@ def diff_np_support(d: Diff, n: int):
         pts = [[float(r.randint(-5, 5)), float(r.randint(-5, 5))] if r.random() < 0.6 else [float(g.g.dy(0)), float(g.g.dy(0))] for _ in range(m)]
         if m >= 3 and r.random() < 0.3:
             pts.append(list(pts[0]))
+        if r.random() < 0.2:  # zero signed area: collinear / repeated vertices / there-and-back
+            dx, dy = float(r.randint(-3, 3)), float(r.randint(-3, 3))
+            pts = r.choice([[[i * dx, i * dy] for i in range(r.randint(3, 5))], [[1.0, 2.0]] * 4,
+                            [[0.0, 0.0], [dx, dy], [2 * dx, 2 * dy], [dx, dy]]])
 
         def cw(im, ps):
             arr = np.array(ps, dtype=np.float64).reshape(-1, 2)
